@@ -19,7 +19,7 @@ MNext ==
      \/ \E r \in Replica, b \in Bugs : Cardinality(have[r]) > 1 /\ CRemove(r, b) /\ Log(E("Remove", r, b, "", 0))
      \/ \E r \in Replica, n \in 1..2 : have[r] # {} /\ res # "resolve" /\ CResolveAll(r, n) /\ Log(E("ResolveAll", r, 0, "", n))
      \/ \E r \in Replica : have[r] # {} /\ res # "reopen" /\ CReopen(r) /\ Log(E("Reopen", r, 0, "", 0))
-     \/ \E r \in Replica : res # "ident" /\ res' = "ident" /\ Log(E("MutateIdentity", r, 0, "", 0)) /\ UNCHANGED <<have, trk, hub, hubnew, staged, listed, indexed, fresh, size>>
+     \/ \E r \in Replica : res # "ident" /\ res' = "ident" /\ Log(E("MutateIdentity", r, 0, "", 0)) /\ UNCHANGED <<have, trk, hub, hubnew, staged, listed, indexed, fresh, size, made>>
 MSpec == MInit /\ [][MNext]_<<vars, hist>>
 Emit == Len(hist) >= Depth => PrintT(ToJson([steps |-> hist]))
 =============================================================================
